@@ -95,4 +95,17 @@ def prove(goal_negation, assumptions=(), timeout_ms=120000):
         s.add(a)
     s.add(goal_negation)
     r = s.check()
-    return str(r), (s.model() if str(r) == "sat" else None)
+    rs = str(r)
+    import os
+    if rs in ("sat", "unsat") and os.environ.get("VERIF_XCHECK") == "1":
+        from symnp.core import Ctx
+        c = Ctx()
+        c._cross(s, rs)           # raises SolverDisagreement on a sat/unsat disagreement with z3 4.8.12 / cvc5
+        for k, v in c.xstats.items():
+            XSTATS.setdefault(k, {"agree": 0, "unknown": 0})
+            XSTATS[k]["agree"] += v["agree"]
+            XSTATS[k]["unknown"] += v["unknown"]
+    return rs, (s.model() if rs == "sat" else None)
+
+
+XSTATS = {}
